@@ -31,8 +31,14 @@ def gen_cfg(rng, k_samplers=None):
 def check_cfg(chk, cfg, n, comps, label):
     base, rets, _ = twin.run_segments(cfg, [(n, "end")], use_folder=True)
     for comp in comps:
+        twin.RESTORE_DIFFS.clear()
         h, r, _ = twin.run_segments(cfg, comp)
         bad = twin.same_history(base, h)
+        if twin.RESTORE_DIFFS:
+            # the restored object already differs from the one that was saved (generator buffers, sampler internals ...):
+            # continuing from it cannot be guaranteed to equal never having stopped, even if this particular run does not show it yet
+            k, dd = twin.RESTORE_DIFFS[0]
+            chk.fail(f"state restored after segment {k} of {comp} is not the state that was stopped: {dd}", {"case": {"cfg": cfg, "n": n, "segments": comp}})
         nrest = sum(1 for _, b in comp if b == "restore")
         chk.case([cfg, comp], len(comp) >= 2, {"lineup": [x[0] for x in cfg["lineup"]], "loss": cfg["loss"], "total_batches": n, "segments": comp})
         chk.count(f"{label}:restores={min(nrest, 3)}"); chk.count(f"{label}:segments={min(len(comp), 5)}")
@@ -74,6 +80,13 @@ def run(chk: Check):
         cfg = gen_cfg(rng, k_samplers=rng.randint(2, 4))
         check_cfg(chk, cfg, n_small, twin.compositions(n_small), "exhaustive")
     chk.extra["exhaustive_compositions_of"] = n_small
+    # targeted: samplers that draw 32-bit integers, odd numbers of draws per batch, a restore at every boundary
+    for i in range(3 if chk.tier == "quick" else 30):
+        names = [rng.choice(["RandomUniformSampler", "BestBatchSampler", "RandomForestSampler", "XGBoostSampler", "GaussianProcessSampler"]) for _ in range(rng.randint(1, 3))]
+        cfg = {"lineup": [("HaltonSampler", 3, None)] + [(nm, rng.choice([1, 3]), None) for nm in names], "dims": rng.choice([1, 3]), "loss": "minkowski",
+               "ensemble": 1, "seed": rng.randrange(10 ** 6), "n_jobs": 1}
+        n = 2 * len(cfg["lineup"]) + 1
+        check_cfg(chk, cfg, n, [[(1, "restore")] * (n - 1) + [(1, "end")], [(2, "restore"), (n - 2, "end")]], "targeted")
     # all nine samplers, sampled compositions of a longer run
     for i in range(4 if chk.tier == "quick" else 40):
         cfg = gen_cfg(rng, k_samplers=9)
